@@ -4,6 +4,7 @@ import FractopoModel.Generated.TopologyParameters
 import FractopoModel.Generated.BoundaryWeight
 import FractopoModel.Generated.ParamTable
 import FractopoModel.Generated.BranchBoundary
+import FractopoModel.Generated.BoundaryLines
 /-!
 # C08 — network parameters equal the published definitions
 -/
@@ -104,6 +105,97 @@ theorem C08_branch_boundary_count (k1 k2 : String)
     Gen.branch_boundary_count (Spec.pairLabelOfKinds k1 k2) =
       (if k1 = "E" then 1 else 0) + (if k2 = "E" then 1 else 0) := by
   rcases h1 with rfl | rfl | rfl <;> rcases h2 with rfl | rfl | rfl <;> decide
+
+/-! ### boundary-intersection counts of the lines (regenerated loops of `determine_boundary_intersecting_lines`) -/
+
+section boundary
+variable {A L P : Type}
+
+/-- candidate `c` of area `a` is strictly within the threshold of the area's boundary -/
+def nearB (line_at : Nat → L) (ldist : L → A → Rat) (t : Rat) (a : A) (c : Nat) : Bool := decide (ldist (line_at c) a < t)
+
+/-- the line cuts through: both ends are within the threshold of the boundary, or no end is inside the area while the line touches it -/
+def cutsB (line_at : Nat → L) (ends_of : L → List P) (pdist : P → A → Rat) (within : P → A → Bool) (touches : L → A → Bool) (t : Rat) (a : A) (c : Nat) : Bool :=
+  ((ends_of (line_at c)).all fun e => decide (pdist e a < t)) || (!((ends_of (line_at c)).any fun e => within e a) && touches (line_at c) a)
+
+theorem boundary_inner (areas : List A) (wq : A → List Nat) (line_at : Nat → L) (ldist : L → A → Rat) (ends_of : L → List P) (pdist : P → A → Rat)
+    (within : P → A → Bool) (touches : L → A → Bool) (iv : List Nat) (t : Rat) (a : A) (all cs i k : List Nat) :
+    Gen.boundary_intersecting_lines_loop2 areas wq line_at ldist ends_of pdist within touches iv t a all cs i k =
+      (i ++ cs.filter (nearB line_at ldist t a), k ++ cs.filter fun c => nearB line_at ldist t a c && cutsB line_at ends_of pdist within touches t a c) := by
+  induction cs generalizing i k with
+  | nil => simp [Gen.boundary_intersecting_lines_loop2]
+  | cons c rest ih =>
+    rw [Gen.boundary_intersecting_lines_loop2]
+    simp only [List.all_map, List.any_map, Function.comp_def, id]
+    by_cases hn : ldist (line_at c) a < t
+    · simp only [hn, decide_true, if_true]
+      by_cases hall : ((ends_of (line_at c)).all fun e => decide (pdist e a < t)) = true
+      · simp only [hall, if_true, ih]
+        simp [nearB, cutsB, hn, hall, List.filter_cons]
+      · simp only [hall, Bool.false_eq_true, if_false]
+        by_cases hcut : (!((ends_of (line_at c)).any fun e => within e a) && touches (line_at c) a) = true
+        · simp only [hcut, if_true, ih]
+          simp [nearB, cutsB, hn, hall, hcut, List.filter_cons]
+        · simp only [hcut, Bool.false_eq_true, if_false, ih]
+          have hall' : ((ends_of (line_at c)).all fun e => decide (pdist e a < t)) = false := by simpa using hall
+          have hcut' : (!((ends_of (line_at c)).any fun e => within e a) && touches (line_at c) a) = false := by simpa using hcut
+          simp [nearB, cutsB, hn, hall', hcut', List.filter_cons]
+    · simp only [hn, decide_false, Bool.false_eq_true, if_false, ih]
+      simp [nearB, hn, List.filter_cons]
+
+theorem boundary_outer (areas : List A) (wq : A → List Nat) (line_at : Nat → L) (ldist : L → A → Rat) (ends_of : L → List P) (pdist : P → A → Rat)
+    (within : P → A → Bool) (touches : L → A → Bool) (iv : List Nat) (t : Rat) (l : List A) (i k : List Nat) :
+    Gen.boundary_intersecting_lines_loop1 areas wq line_at ldist ends_of pdist within touches iv t l i k =
+      (i ++ l.flatMap (fun a => (wq a).filter (nearB line_at ldist t a)),
+       k ++ l.flatMap (fun a => (wq a).filter fun c => nearB line_at ldist t a c && cutsB line_at ends_of pdist within touches t a c)) := by
+  induction l generalizing i k with
+  | nil => simp [Gen.boundary_intersecting_lines_loop1]
+  | cons a rest ih =>
+    rw [Gen.boundary_intersecting_lines_loop1]
+    by_cases he : (wq a).length = 0
+    · have : wq a = [] := List.eq_nil_of_length_eq_zero he
+      simp [he, this, ih]
+    · simp only [he, decide_false, Bool.false_eq_true, if_false, boundary_inner, ih]
+      simp [List.append_assoc]
+
+/-- **Which lines intersect the boundary, which cut through.** The regenerated loops flag the line with index value `idx` as
+*intersecting* exactly when, for some target area, it is among that area's window candidates and strictly within the threshold
+of the area's boundary; and as *cutting through* when in addition both its ends are within the threshold of that boundary, or
+no end lies inside the area while the line touches it -- for any number of areas and lines, in frame order. -/
+theorem C08_generated_boundary_lines (areas : List A) (wq : A → List Nat) (line_at : Nat → L) (ldist : L → A → Rat) (ends_of : L → List P)
+    (pdist : P → A → Rat) (within : P → A → Bool) (touches : L → A → Bool) (iv : List Nat) (t : Rat) :
+    Gen.boundary_intersecting_lines areas wq line_at ldist ends_of pdist within touches iv t =
+      (iv.map (fun idx => areas.any fun a => (wq a).any fun c => c == idx && nearB line_at ldist t a c),
+       iv.map (fun idx => areas.any fun a => (wq a).any fun c => c == idx && (nearB line_at ldist t a c && cutsB line_at ends_of pdist within touches t a c))) := by
+  unfold Gen.boundary_intersecting_lines
+  simp only [boundary_outer, List.nil_append, Prod.mk.injEq]
+  constructor <;>
+  · apply List.map_congr_left
+    intro idx _
+    rw [Bool.eq_iff_iff]
+    simp only [List.elem_eq_contains, List.contains_eq_mem, List.mem_flatMap, List.mem_filter, decide_eq_true_eq, List.any_eq_true,
+      Bool.and_eq_true, beq_iff_eq]
+    constructor
+    · rintro ⟨a, ha, hc, h⟩; exact ⟨a, ha, idx, hc, rfl, h⟩
+    · rintro ⟨a, ha, c, hc, rfl, h⟩; exact ⟨a, ha, hc, h⟩
+
+/-- **The count is the number of ends on the boundary** (0, 1 or 2) for a two-ended line in one area, on crisp input: the line is
+near the boundary exactly when one of its ends is; an end that is not on the boundary lies inside the area. With the regenerated
+`bool_sum` the count is `[intersecting] + [cuts through]`. -/
+theorem C08_count_is_ends_on_boundary (e1 e2 : P) (a : A) (pdist : P → A → Rat) (within : P → A → Bool) (near touches : Bool) (t : Rat)
+    (hnear : near = (decide (pdist e1 a < t) || decide (pdist e2 a < t)))
+    (h1 : ¬ pdist e1 a < t → within e1 a = true) (h2 : ¬ pdist e2 a < t → within e2 a = true) :
+    Gen.bool_sum near (near && (([e1, e2].all fun e => decide (pdist e a < t)) || (!([e1, e2].any fun e => within e a) && touches)))
+      = (if pdist e1 a < t then 1 else 0) + (if pdist e2 a < t then 1 else 0) := by
+  subst hnear
+  unfold Gen.bool_sum
+  by_cases c1 : pdist e1 a < t <;> by_cases c2 : pdist e2 a < t
+  · simp [c1, c2]
+  · simp [c1, c2, h2 c2]
+  · simp [c1, c2, h1 c1]
+  · simp [c1, c2]
+
+end boundary
 
 example : ∃ n : NetIn, n.X = 1 ∧ n.area > 0 ∧ n.param "Connections per Branch" = some (.num 2) :=
   ⟨⟨1, 0, 0, 4, [2, 2], [1, 1, 1, 1], 4, true, 3, fun x => x⟩, by decide +kernel⟩
